@@ -496,3 +496,38 @@ Example wrap_old_refuted :
   trace_ok (snd (crun wrap_old [COpen 0 false])) = false /\
   dead (fst (crun wrap_old [COpen 0 false])) = true.
 Proof. vm_compute. repeat split; reflexivity. Qed.
+
+(* ---------- openDB as two critical sections ---------- *)
+Lemma open_db_split name s :
+  open_db name false s =
+  match open_begin name s with
+  | (s1, Some r) => (s1, r, [])
+  | (s1, None) =>
+      let '(s2, u) := under_open s1 in
+      let '(s3, r) := open_finish name u s2 in (s3, r, [UOpen name u])
+  end.
+Proof.
+  unfold open_db, open_begin, under_open, open_finish, ref_incr, die, count_of.
+  destruct (nd_nil s); [reflexivity|].
+  destruct (alookup name (opened s)); [destruct (ref_nil s); reflexivity|].
+  cbn [kind opened_nil nd_nil opened ref_nil refc notdropped handles next_uid dead].
+  destruct (opened_nil s); [reflexivity|]. destruct (ref_nil s); reflexivity.
+Qed.
+
+(* the sequential traces of the model satisfy the counting clauses too (sample) *)
+Example conc_ok_sequential_sample :
+  conc_ok [([KOpen 0 (RHandle 0)], [UOpen 0 0]); ([KOpen 0 (RHandle 0)], []); ([KDrop 0 ROk], [UDrop 0]);
+           ([KClose 0 ROk], []); ([KClose 0 ROk], [UClose 0]); ([KClose 0 ROverClose], []);
+           ([KOpen 0 (RHandle 1)], [UOpen 0 1])] = true.
+Proof. vm_compute. reflexivity. Qed.
+
+(* Two OpenDB(name) calls on a closed name, the second issued while the first is inside the
+   underlying open: both miss the cache, both open the underlying database, two different stores
+   are returned and the first one is never closed by the matching closes. *)
+Lemma overlapping_first_opens s0 :
+  s0 = wrap \/ s0 = wrap_all ->
+  let '(s, r1, r2, ev) := open_overlap 0 s0 in
+  r1 = RHandle 0 /\ r2 = RHandle 1 /\ ev = [UOpen 0 0; UOpen 0 1] /\
+  conc_ok [([KOpen 0 r1; KOpen 0 r2], ev)] = false /\
+  snd (crun s [CClose 0; CClose 0]) = [(CClose 0, ROk, []); (CClose 0, ROk, [UClose 0])].
+Proof. intros [-> | ->]; vm_compute; repeat split; reflexivity. Qed.
